@@ -6,6 +6,7 @@ encoding (`-` = empty string); a list of strings is printed `[h,h,...]`.
 
   sh   <hex>*                  args2sh(args)       -> `T<text> S<shSplit text>`
   cmd  <hex>*                  args2cmd(args)      -> `T<text> D<..> L<..> M<..>`  (crtSplit, 3 variants)
+  esa  <hexstyle> <hex>*       escape_shell_args(args, style) (`-` = None)  -> `T<text>` | `ValueError`
   shlex <hex>                  shSplit(text)       -> `S<list>` | `Snone`
   crt  <hex>                   crtSplit(text)      -> `D<..> L<..> M<..>`
   fmt  <0|1> <n,n,..|->        format_int_list(L, delim_space) -> `T<text> P<parse text> R<int_ranges text>`
@@ -51,6 +52,13 @@ def handle (line : String) : String :=
     match args? toks with
     | some args => let t := args2cmd args; s!"T{hexOf t} {crtAll t}"
     | none => "bad-op"
+  | "esa" :: st :: toks =>
+    match hexToString? st, args? toks with
+    | some st, some args =>
+      match escapeShellArgs (toStr st) args with
+      | some t => s!"T{hexOf t}"
+      | none => "ValueError"
+    | _, _ => "bad-op"
   | ["shlex", h] =>
     match hexToString? h with
     | some s => s!"S{showOptList (shSplit (toStr s))}"
